@@ -403,6 +403,14 @@ def run(ctx):
                 ctx.add_failing("constraint-violated", dict(inp, constraint_values=cs), observed=str(cs), expected="R_last == R_previous * ratio", clause="user-supplied constraint expressions hold for the returned values")
         if kind == "recovery":
             errs = [abs(a - b) / abs(b) for a, b in zip(r["fit"], r["true"])]
+            if name == "R(RC)(RC)":
+                # the circuit is symmetric under exchanging its two (RC) units: the generating values are determined up to that exchange
+                fit = r["fit"]
+                swapped = [fit[0], fit[3], fit[4], fit[1], fit[2]]
+                errs2 = [abs(a - b) / abs(b) for a, b in zip(swapped, r["true"])]
+                if max(errs2) < max(errs):
+                    errs = errs2
+                    ctx.count("recovery:units-exchanged")
             worst_p, worst_c = max(worst_p, max(errs)), max(worst_c, r["chisqr"])
             if not (max(errs) <= REC_PARAM and r["chisqr"] <= REC_CHISQR):
                 ctx.add_failing("generating-parameters-not-recovered", inp, observed=f"max relative parameter error {max(errs):.3g}, pseudo chi-squared {r['chisqr']:.3g} ({r['method']}, {r['weight']})",
